@@ -1,7 +1,7 @@
 """C04 — transitions stay inside the static-timing window and move rigidly with inputs."""
 import json, pickle, base64, random
 import numpy as np
-from . import common, circ, wavecorr as wc
+from . import common, circ, wavecorr as wc, c03
 
 PID = 'C04'
 TARGETS = ['KyupyVerif.Props.C04']
@@ -9,25 +9,30 @@ RULE = ('random circuits x delays >= 0 on a dyadic grid x multi-transition input
         'rigid-motion clauses; 4..8 for the window clause): oracle on the real WaveSim: (a) every finite transition of every line lies inside the '
         'static-timing window computed independently (min/max path delays from the input transition times); (b) shifting all input transitions by s '
         'shifts every transition of every line by s; (c) scaling times and delays by 2^k scales every transition; (d) polarity-independent delays: '
-        'timestamps strictly increasing in every waveform. distinct = (circuit, delays, stimulus, clause); non-trivial = some line has a finite transition')
+        'timestamps strictly increasing in every waveform; (e) with c_reuse (and strip_forks) the waveforms at output ports and flip-flop inputs stay inside the window computed from the run without reuse. distinct = (circuit, delays, stimulus, clause); non-trivial = some line has a finite transition')
 
 
 def theorems():
     return common.theorems_of('KyupyVerif/Props/C04.lean', 'KV.C04')
 
 
-def make_case(rng, thorough=False):
-    c = circ.rand_circuit(rng, n_gates=rng.randint(1, 16 if not thorough else 45))
+def make_case(rng, thorough=False, ports=False):
+    c = circ.rand_circuit(rng, n_gates=rng.randint(1, 16 if not thorough else 45)) if not ports else \
+        circ.rand_circuit(rng, n_gates=rng.randint(6, 30 if not thorough else 60), n_ff=rng.randint(1, 4))
+    if ports:
+        return {'circuit': base64.b64encode(pickle.dumps(c)).decode(), 'dseed': rng.randint(0, 2**31 - 1), 'sseed': rng.randint(0, 2**31 - 1),
+                'sims': rng.choice([1, 2]), 'polind': rng.random() < 0.5, 'caps': rng.choice([8, 16]), 'shift': 0, 'scale': 1,
+                'strip': rng.random() < 0.7, 'cuda': False, 'reuse': True, 'ports': True}
     return {'circuit': base64.b64encode(pickle.dumps(c)).decode(), 'dseed': rng.randint(0, 2**31 - 1), 'sseed': rng.randint(0, 2**31 - 1),
             'sims': rng.choice([1, 2, 4]), 'polind': rng.random() < 0.5, 'caps': rng.choice([16, 32]), 'shift': rng.choice([0.5, 3, 7.5, 64, -2.5]),
-            'scale': rng.choice([2, 4, 0.5, 8]), 'strip': rng.random() < 0.25, 'cuda': rng.random() < 0.2}
+            'scale': rng.choice([2, 4, 0.5, 8]), 'strip': rng.random() < 0.25, 'cuda': rng.random() < 0.2, 'reuse': rng.random() < 0.3}
 
 
-def simulate(case, shift=0.0, scale=1.0, caps=None):
+def simulate(case, shift=0.0, scale=1.0, caps=None, ports_only=False):
     c = pickle.loads(base64.b64decode(case['circuit']))
     drng = random.Random(case['dseed']); srng = random.Random(case['sseed'])
     delays = wc.rand_delays(drng, len(c.lines), polarity_dependent=not case['polind']) * np.float32(scale)
-    ws = wc.make_sim(c, delays, case['sims'], c_caps=caps or case['caps'], strip=case['strip'], cuda=case['cuda'])
+    ws = wc.make_sim(c, delays, case['sims'], c_caps=caps or case['caps'], strip=case['strip'], cuda=case['cuda'], reuse=case.get('reuse', False) and ports_only)
     i, t, f = wc.rand_stim(srng, ws.s_len, case['sims'], tmax=30)
     wc.assign(ws, i, t, f)
     wc.overwrite_inputs(ws, srng, p=0.6, tmax=30)
@@ -54,8 +59,46 @@ def waves(ws, c, sim):
     return res
 
 
+def port_windows(case):
+    """clause (e): with memory reuse on (only ports are observable afterwards) every finite transition seen at an output port or
+    flip-flop input lies inside the static-timing window of that signal; the window comes from the op list of the run WITHOUT reuse"""
+    TMIN, TMAX, TOVL = wc.consts()
+    c, ws0, delays = simulate(case)
+    ops = np.array(ws0.ops); cc = np.array(ws0.c); locs = np.array(ws0.c_locs)
+    c1, ws1, _ = simulate(case, ports_only=True)
+    cc1 = np.array(ws1.c); locs1 = np.array(ws1.c_locs); caps1 = np.array(ws1.c_caps)
+    for s in range(case['sims']):
+        win = {}
+        for s_loc in ws0.pippi_s_locs:
+            idx = ws0.ppi_offset + int(s_loc)
+            ents, _ = wc.read_wave(cc, int(locs[idx]), int(ws0.c_caps[idx]), s)
+            fin = [t for t in ents if t > TMIN]
+            win[int(locs[idx])] = (min(fin), max(fin)) if fin else None
+        for row in ops:
+            acc = None
+            for a in row[2:6]:
+                a = int(a); w = win.get(int(locs[a]))
+                if w is None: continue
+                d = delays[0, a] if a < delays.shape[1] else np.zeros((2, 2))
+                lo, hi = w[0] + float(d.min()), w[1] + float(d.max())
+                acc = (lo, hi) if acc is None else (min(acc[0], lo), max(acc[1], hi))
+            win[int(locs[int(row[1])])] = acc
+        for s_loc in ws1.poppo_s_locs:
+            idx = ws1.ppo_offset + int(s_loc)
+            if int(locs1[idx]) < 0: continue
+            ents, term = wc.read_wave(cc1, int(locs1[idx]), int(caps1[idx]), s)
+            w = win.get(int(locs[idx]))
+            for t in ents:
+                if t <= TMIN: continue
+                if w is None or t < w[0] or t > w[1]:
+                    return False, {'clause': 'port-window', 's_node': int(s_loc), 'name': c.s_nodes[int(s_loc)].name, 'lane': s, 'transition': t,
+                                   'waveform': wc.fmt_wave(ents, term), 'c_reuse': True, 'strip_forks': case['strip']}, {'window': w}
+    return True, None, None
+
+
 def eval_case(case):
     TMIN, TMAX, TOVL = wc.consts()
+    if case.get('ports'): return port_windows(case)
     c, ws, delays = simulate(case)
     ops = np.array(ws.ops); cc = np.array(ws.c); locs = np.array(ws.c_locs)
     # (a) STA window, independent computation over the op list (through memory locations for stripped branches)
@@ -99,9 +142,43 @@ def eval_case(case):
     return True, None, None
 
 
-def oracle(ck, n, thorough=False):
+def gate_oracle(ck, n):
+    """gate level, on the real wave_eval_cpu: every finite output transition lies inside the window of the operand
+    transitions moved by the min/max of that operand's four delay entries; strictly increasing output for
+    polarity-independent delays and strictly increasing operands; plus the model correspondence of C03"""
+    TMIN = wc.consts()[0]
+    c03.corr_gate(ck, n)          # ties the Lean transcription (the theorems are about it) to wave_eval_cpu
     for it in range(n):
-        cs = make_case(ck.rng, thorough)
+        cs = c03.gate_case(ck.rng)
+        if ck.rng.random() < 0.5:
+            for i in range(4): cs['d'][i] = [cs['d'][i][0]] * 4        # polarity independent
+        try:
+            ents, term, nr, nf = c03.run_gate_real(cs)
+        except Exception as ex:
+            ck.violation('wave-gate', 'wave_eval_cpu raised', cs, {'raised': str(ex)[:200]}, None); continue
+        lo = hi = None
+        for i, inp in enumerate(cs['ins']):
+            fin = [wc.dec(t) for t in inp['w'] if t != 'm']
+            if not fin: continue
+            dl = [v / wc.GRID for v in cs['d'][i]]
+            a, b = min(fin) + min(dl), max(fin) + max(dl)
+            lo = a if lo is None else min(lo, a); hi = b if hi is None else max(hi, b)
+        ck.case(key=('gatewin', json.dumps(cs, sort_keys=True)), nontrivial=any(t > TMIN for t in ents), tag=['gate-window'])
+        for t in ents:
+            if t <= TMIN: continue
+            if lo is None or t < lo or t > hi:
+                ck.violation('wave-window', 'gate output transition outside the static-timing window of its operands', cs,
+                             {'transition': t, 'waveform': [float(x) for x in ents]}, {'window': [lo, hi]})
+                break
+        polind = all(len(set(cs['d'][i])) == 1 for i in range(4))
+        if polind and any(b <= a for a, b in zip(ents, ents[1:])):
+            ck.violation('wave-monotone', 'non-monotone output waveform with polarity-independent delays', cs,
+                         {'waveform': [float(x) for x in ents]}, {'strictly': 'increasing'})
+
+
+def oracle(ck, n, thorough=False):
+    for it in range(n + n // 2):
+        cs = make_case(ck.rng, thorough, ports=it >= n)
         try:
             ok, obs, exp = eval_case(cs)
         except wc.OffGrid:
@@ -111,16 +188,18 @@ def oracle(ck, n, thorough=False):
         ck.case(key=(cs['circuit'][:80], cs['dseed'], cs['sseed'], cs['polind'], cs['shift'], cs['scale']),
                 sample={k: v for k, v in cs.items() if k != 'circuit'},
                 tag=[f"polind:{cs['polind']}", f"shift:{cs['shift']}", f"scale:{cs['scale']}", f"strip:{cs['strip']}", f"cuda:{cs['cuda']}",
-                     'skipped-rigid' if (obs and 'skipped' in obs) else 'rigid-checked'])
+                     'port-window-reuse' if cs.get('ports') else ('skipped-rigid' if (obs and 'skipped' in obs) else 'rigid-checked')])
         if not ok:
             ck.violation('wave-' + (obs.get('clause', 'run') if obs else 'run'), 'WaveSim violates the timing clause', cs, obs, exp)
 
 
 def run(ck):
     ck.prove([], TARGETS, theorems())
-    n = 60 if ck.tier == 'quick' else 900
+    n, ng = (60, 1500) if ck.tier == 'quick' else (900, 30000)
+    gate_oracle(ck, ng)
     oracle(ck, n, ck.tier == 'thorough')
-    if ck.broken and not ck.violations: oracle(ck, n * 5, ck.tier == 'thorough')
+    if ck.broken and not ck.violations:
+        gate_oracle(ck, ng * 4); oracle(ck, n * 5, ck.tier == 'thorough')
     ck.assumptions += ['waveform model tied to wave_eval_cpu by the correspondence of C03',
                        'shift/scale invariance is decided by the oracle only (no theorem yet); power-of-two scales and dyadic shifts are exact in float32']
     return ck.finish(RULE)
